@@ -80,6 +80,9 @@ def dual_pass(ctx, prefix, kind, variants=((7, 11), (1, 3), (19, 23), (13, 20), 
         if s.outcome != "ok":
             ctx.report(f"{prefix}|{kind}|two-clients|{s.outcome}", f"session ended with {s.outcome}: {s.errors[:1]}", case)
             continue
+        if s.bad_deliveries:
+            ctx.report(f"{prefix}|{kind}|two-clients|not-a-message", f"the receive callback was called with something that is not a message: {s.bad_deliveries[0][1]}", case)
+            continue
         for name, got, chunks in (("first", got_a, ca), ("second", got_b, cb)):
             exp, _ = aio.bare_decoder_delivery(kind, chunks)
             if [traffic.canon(m) for m in got] != [traffic.canon(m) for m in exp]:
@@ -147,6 +150,9 @@ def sweep_through_client(ctx, prefix, kind, part, parts, compare=True):
         ctx.report(f"{prefix}|{kind}|boundary-frames|{s.outcome}", f"feeding {len(chunks)} boundary frames: session ended with {s.outcome}: {s.errors[:1]} "
                    f"({len(got)} messages had been delivered)", case)
         return
+    if s.bad_deliveries:
+        ctx.report(f"{prefix}|{kind}|boundary-frames|not-a-message", f"the receive callback was called {len(s.bad_deliveries)} time(s) with something that is not a message "
+                   f"({s.bad_deliveries[0][1]})", case)
     if s.heartbeats < 0.9 * (s.elapsed / 0.1) - 2:
         ctx.report(f"{prefix}|{kind}|boundary-frames|heartbeat-starved", f"{s.heartbeats} heartbeats in {s.elapsed:.1f} virtual s", case)
     if compare:
